@@ -647,7 +647,8 @@ def thorough_extras(pid, P, workdir, rep):
     # 4. agreement: discharged obligations re-checked with the other solvers (sample)
     import random
     rnd = random.Random(int(os.environ.get("VERIF_SEED", "0") or 0))
-    dis = [o for o in rep["obligations"] if o["verdict"] == "unsat" and o.get("smt_file") and os.path.exists(o["smt_file"])]
+    # (cover clauses are discharged by a SATISFIABLE member: their recorded verdict is not the solver's answer - left out)
+    dis = [o for o in rep["obligations"] if o["verdict"] == "unsat" and o.get("kind") != "cover" and o.get("smt_file") and os.path.exists(o["smt_file"])]
     sample = dis if len(dis) <= 40 else rnd.sample(dis, 40)
     agree = {"checked": 0, "confirmed_by_second_solver": 0, "second_solver_undecided": 0, "disagreements": []}
     for o in sample:
